@@ -16,9 +16,12 @@
 
 from __future__ import annotations
 
+from functools import reduce
+from operator import add
 from typing import TYPE_CHECKING
 
 from gemseo.core.chains.parallel_chain import MDOParallelChain
+from gemseo.core.derivatives.jacobian_operator import JacobianOperator
 
 if TYPE_CHECKING:
     from collections.abc import Iterable
@@ -90,13 +93,33 @@ class MDOAdditiveChain(MDOParallelChain):
 
         # Sum the Jacobians of the required outputs across disciplines
         for output_name in self._outputs_to_sum:
+            if output_name not in output_names:
+                continue
+
             self.jac[output_name] = {}
             for input_name in input_names:
+                # A discipline that does not compute the output,
+                # or that is not differentiated with respect to the input,
+                # does not contribute to the sum.
                 disciplinary_jacobians = [
                     discipline.jac[output_name][input_name]
                     for discipline in self.disciplines
-                    if input_name in discipline.jac[output_name]
+                    if input_name in discipline.jac.get(output_name, ())
                 ]
+                if disciplinary_jacobians:
+                    # The Jacobian operators first: they can be added to arrays,
+                    # the reverse does not hold.
+                    disciplinary_jacobians.sort(
+                        key=lambda jac: not isinstance(jac, JacobianOperator)
+                    )
+                    self.jac[output_name][input_name] = reduce(
+                        add, disciplinary_jacobians
+                    )
 
-                assert disciplinary_jacobians
-                self.jac[output_name][input_name] = sum(disciplinary_jacobians)
+        # The blocks without contribution are zero.
+        self._init_jacobian(
+            input_names,
+            output_names,
+            fill_missing_keys=True,
+            init_type=self.InitJacobianType.SPARSE,
+        )
